@@ -24,4 +24,56 @@ macro_rules! props {
 
 props!(c01, c02, c03, c04, c05, c06, c07, c08, c09, c10, c11, c12, c13, c14, c15, c16, c17, c18);
 
-pub fn gen_corpus(_dir: &str) {}
+/// Seed corpora for the libFuzzer campaigns (written to `<dir>/<prop>-<sub>/`): the asset files and model encodings for the
+/// raw targets, a few pseudo-random tapes for the tape targets. Deterministic in `seed`.
+pub fn gen_corpus(dir: &str, seed: u64) {
+    use vmodel::model::*;
+    use vmodel::tape::{fill, Tape};
+    let write = |sub: &str, i: usize, data: &[u8]| {
+        let d = format!("{}/{}", dir, sub);
+        let _ = std::fs::create_dir_all(&d);
+        let _ = std::fs::write(format!("{}/seed-{:04}", d, i), data);
+    };
+    let assets = c01::asset_files().clone();
+    for (i, a) in assets.iter().enumerate() {
+        for sub in ["C01-entry_points_raw", "C02-frame_raw", "C03-differential_raw", "C16-many_raw"] {
+            write(sub, 9000 + i, a);
+        }
+    }
+    for i in 0..300usize {
+        let tape = fill(seed ^ (0x5eed_0000 + i as u64), 600);
+        let mut t = Tape::new(&tape);
+        let mut b = c01::gen_structured(&mut t).buf;
+        b.truncate(4096);
+        write("C01-entry_points_raw", i, &b);
+        let mut t = Tape::new(&tape);
+        let mut r = gen_record(&mut t).to_bytes();
+        r.truncate(2048);
+        write("C02-frame_raw", i, &r);
+        write("C03-differential_raw", i, &r);
+        let mut many = r.clone();
+        many.extend(gen_record(&mut t).to_bytes());
+        many.truncate(4096);
+        write("C16-many_raw", i, &many);
+        let mut t = Tape::new(&tape);
+        let mut d = gen_dtls_record(&mut t).to_bytes();
+        d.truncate(2048);
+        write("C10-frame_raw", i, &d);
+        write("C16-many_raw", 1000 + i, &d);
+        // locality_raw: [family selector, split selector, bytes]
+        let mut t = Tape::new(&tape);
+        let e = c01::gen_structured(&mut t);
+        let mut l = vec![(i % 13) as u8, 200];
+        l.extend(e.buf.iter().take(1024));
+        write("C06-locality_raw", i, &l);
+    }
+    for sd in subs() {
+        if sd.name.ends_with("_raw") || sd.name == "differential_case" {
+            continue;
+        }
+        for i in 0..40usize {
+            let n = 32 + 16 * (i % 20);
+            write(&format!("{}-{}", sd.prop, sd.name), i, &fill(seed ^ vmodel::wire::fnv64(sd.name.as_bytes()) ^ i as u64, n));
+        }
+    }
+}
